@@ -3,6 +3,7 @@ package bgp
 import (
 	"fmt"
 	"strings"
+	"time"
 
 	"verif.local/simrt"
 )
@@ -17,9 +18,9 @@ import (
 
 // event classes
 const (
-	evConnect      = "tcp_established"      // neighbour connects in
-	evOpenValid    = "open_valid"           // OPEN matching the configuration
-	evOpenInvalid  = "open_invalid"         // OPEN that must be rejected
+	evConnect      = "tcp_established" // neighbour connects in
+	evOpenValid    = "open_valid"      // OPEN matching the configuration
+	evOpenInvalid  = "open_invalid"    // OPEN that must be rejected
 	evKeepalive    = "keepalive"
 	evUpdate       = "update_valid"
 	evUpdateBad    = "update_malformed"
@@ -195,13 +196,43 @@ func genC23(seed uint64) *Plan {
 }
 
 type c23Oracle struct {
-	state string // reference state of the session on the current connection
-	trace []string
-	conn  *Conn
-	active bool // the DUT is the active side of the session (plans with params.active)
+	state  string // reference state of the session on the current connection
+	trace  []string
+	conn   *Conn
+	active bool           // the DUT is the active side of the session (plans with params.active)
+	seenTr int            // FSM log entries already judged
+	entry  *fsmTransition // the transition that entered the FSM's current state
 }
 
-func (o *c23Oracle) Init(w *World) { o.state = "idle"; o.active = w.Plan.Params["active"] == 1 }
+func (o *c23Oracle) Init(w *World) {
+	o.state = "idle"
+	o.active = w.Plan.Params["active"] == 1
+	w.Env.CaptureFSMLog()
+}
+
+// checkCauses (active side: one FSM, so the FSM's own transition log is one session's history):
+// a session leaves OpenSent, OpenConfirm or Established for Idle only because of something -
+// bytes or the end of the connection from the neighbour, or a timer, and the shortest timer that
+// can end a session (the smallest hold time the plans configure, 9 s) cannot have run out less
+// than 8 s after the state was entered. No C23 plan stops the session administratively.
+func (o *c23Oracle) checkCauses(w *World) {
+	trs := w.Env.Transitions
+	for ; o.seenTr < len(trs); o.seenTr++ {
+		t := trs[o.seenTr]
+		if !o.active {
+			continue
+		}
+		if (t.From == "openSent" || t.From == "openConfirm" || t.From == "established") && t.To == "idle" && o.entry != nil && o.entry.To == t.From {
+			e := o.entry
+			if t.Deliveries == e.Deliveries && t.Closes == e.Closes && t.At-e.At < 8*time.Second {
+				w.Env.Violate("C23", "left_"+t.From+"_without_cause", "the session entered %s at %v (%s) and returned to Idle at %v (reason given: %q) although the neighbour sent nothing and did not end the connection in between and no session timer can expire that early",
+					t.From, e.At, e.Reason, t.At, t.Reason)
+			}
+		}
+		tt := t
+		o.entry = &tt
+	}
+}
 
 // what may happen to the active side's FSM merely because time passes (automatic start after
 // the reconnect interval, ConnectRetry timer, a dialled connection coming up, hold timers)
@@ -220,6 +251,7 @@ var rfcTime = map[string][]string{
 // BeforeStep (active side only): the FSM moves on its own between the plan's events; the
 // autonomous part of the trace must be in the model too, and the reference state follows it.
 func (o *c23Oracle) BeforeStep(w *World, i int, s *Step) {
+	o.checkCauses(w)
 	if !o.active {
 		return
 	}
@@ -346,7 +378,7 @@ func (o *c23Oracle) AfterStep(w *World, i int, s *Step) {
 	}
 }
 
-func (o *c23Oracle) Final(w *World) {}
+func (o *c23Oracle) Final(w *World) { o.checkCauses(w) }
 
 var _ = simrt.Hash64
 
